@@ -34,7 +34,9 @@ class Skip(Expression):
                         out += Code('continue')
                     continue
 
-                with out.IF(STATUS):
+                # (Only start over when we made some progress. An expression
+                # that matches nothing would otherwise be skipped for ever.)
+                with out.IF(Code(STATUS, ' and ', POS != checkpoint)):
                     out += Code('continue')
 
                 if expr.can_partially_succeed():
